@@ -174,7 +174,19 @@ func (r R) Piece(q byte) (ir.Piece, int) {
 		case 0:
 			v = []int{0x22, 0x27, 0x5C, 0x0A, 0x0D, 0x60, 0x2028, 0x2029, 0xD83D, 0xDE00, 0xD800, 0xDFFF, 0xFFFF, 0x7F, 0x80, 0x7FF, 0x800, 0xFEFF}[r.Intn(18, "unispecial")]
 		}
-		return UniPiece(v, r.Bool("upper")), fam
+		up := UniPiece(v, r.Bool("upper"))
+		if v >= 0xD800 && v <= 0xDBFF && r.Bool("hisurrfollow") {
+			// a high surrogate directly followed by another escape that is not its
+			// low half: an escaped backslash or the escaped delimiter
+			if r.Bool("hsbackslash") {
+				up.Src += "\\\\"
+				up.Units = append(up.Units, '\\')
+			} else {
+				up.Src += "\\" + string(q)
+				up.Units = append(up.Units, uint16(q))
+			}
+		}
+		return up, fam
 	case PUniBrace:
 		var v int
 		switch r.Intn(3, "ubsel") {
